@@ -10,7 +10,7 @@ from ..loader import Func, norm, walk_expr, walk_own
 from ..prov import call_name, expand1, get_arg, scope_of
 from .C04 import _check_closed_requests, reported_rule
 from .C17 import _accessors
-from .transfer_common import build_model
+from .transfer_common import build_model, check_rest_attempted
 
 ROLES = ("data", "cache", "remote")
 
@@ -33,6 +33,7 @@ def check(ck: Checker) -> None:
     _check_closed_requests(ck, "C18.closed")
     m = build_model(ck)
     reported_rule(ck, m, "C18.counts")
+    check_rest_attempted(ck, m, "C18.counts")
     _objectpath(ck)
     _accessors(ck)
     for o in ck.obs:
